@@ -157,6 +157,35 @@ def reloads (st : Station Sel Pol Geo) :
     | .err => .err
     | .panic => .panic
 
+/-! ### what a sequence of reloads calls for, part by part
+
+The version of a part that must be in force after a sequence of reloads is the one produced by the **last**
+reload in which *that part's own* loading step (and the configuration, without which `main` does not reload
+at all) succeeded — whatever happened to the other parts in the same or in other reloads. -/
+
+/-- the address policies: those of the last configuration that loaded -/
+def lastPolicy (p0 : Pol) : List (Outcome Pol × Option Sel × GeoLoad Geo) → Pol
+  | [] => p0
+  | (.ok pol, _, _) :: rest => lastPolicy pol rest
+  | (.err, _, _) :: rest => lastPolicy p0 rest
+  | (.panic, _, _) :: rest => lastPolicy p0 rest
+
+/-- the phantom selector: that of the last reload whose configuration and subnets file both loaded -/
+def lastSelector (s0 : Sel) : List (Outcome Pol × Option Sel × GeoLoad Geo) → Sel
+  | [] => s0
+  | (.ok _, some s, _) :: rest => lastSelector s rest
+  | (.ok _, none, _) :: rest => lastSelector s0 rest
+  | (.err, _, _) :: rest => lastSelector s0 rest
+  | (.panic, _, _) :: rest => lastSelector s0 rest
+
+/-- the GeoIP database: that of the last reload whose configuration loaded and whose databases loaded (or
+are not named: `missing`) -/
+def lastGeoip (g0 : Geo) : List (Outcome Pol × Option Sel × GeoLoad Geo) → Geo
+  | [] => g0
+  | (.ok _, _, g) :: rest => lastGeoip (g.loaded.getD g0) rest
+  | (.err, _, _) :: rest => lastGeoip g0 rest
+  | (.panic, _, _) :: rest => lastGeoip g0 rest
+
 /-! ## the statistics printer of the liveness module -/
 
 open CJ.Liveness in
